@@ -39,4 +39,6 @@ def obligations(tier):
         cv(f'threads/kfold/mlr/n4t{t}/groups0120', {'HP_CV': 1, 'HP_ALGO': 0, 'HP_N': 4, 'HP_NY': 1, 'HP_T': t, 'HP_NLV': 1, 'HP_G': 3, 'HP_GROUPS': '0,1,2,0'}, 8)
     for (it, t) in ([(2, 1), (2, 2)] if not th else [(2, 1), (2, 2), (3, 1), (3, 3), (4, 2)]):
         cv(f'threads/bootstrap/mlr/n4g2it{it}t{t}', {'HP_CV': 2, 'HP_ALGO': 0, 'HP_N': 4, 'HP_NY': 1, 'HP_T': t, 'HP_NLV': 1, 'HP_G': 2, 'HP_IT': it, 'HP_RNG_DISTINCT': 1}, 8)
+        if t > 1:      # the same call with one thread consumes the same multiset of seeds (two runs in one query: smallest data set)
+            cv(f'threads/bootstrap_seeds/mlr/n2g1it{it}t{t}', {'HP_CV': 2, 'HP_ALGO': 0, 'HP_N': 2, 'HP_NY': 1, 'HP_T': t, 'HP_NLV': 1, 'HP_G': 1, 'HP_IT': it, 'HP_RNG_DISTINCT': 1, 'HP_SEEDCMP': 1}, 18)
     return obs
